@@ -490,4 +490,32 @@ theorem scanEncoding_append (e : Enc) (xs ys : List Header) :
     · simp [scanEncoding, hn, ih]
 
 
+/-! ### several streams -/
+
+theorem runO_none (cd : Codec) (fs : List Frame) : Stream.runO cd none fs = [] := by
+  cases fs <;> rfl
+
+theorem run_eq_runO (cd : Codec) (s : Stream) (fs : List Frame) : Stream.run cd s fs = Stream.runO cd (some s) fs := by
+  induction fs generalizing s with
+  | nil => rfl
+  | cons f fs ih =>
+    cases f with
+    | headers d hs es =>
+      simp only [Stream.run, Stream.runO, Stream.step]
+      cases h : (s.header d hs es).2.any (fun e => match e with | .error _ => true | _ => false) with
+      | true => simp [runO_none]
+      | false => simp [ih]
+    | data d b es =>
+      simp only [Stream.run, Stream.runO, Stream.step]
+      cases h : (Stream.data cd s d b es).1 with
+      | none => simp [runO_none]
+      | some s' => simp [ih]
+
+theorem multi_get_set (m : Multi) (sid sid' : Nat) (s : Option Stream) :
+    (m.set sid s).get sid' = if sid' = sid then s else m.get sid' := by
+  by_cases h : sid' = sid
+  · subst h; simp [Multi.get, Multi.set]
+  · have : (sid' == sid) = false := by simpa using h
+    simp [Multi.get, Multi.set, List.lookup, this, h]
+
 end Martian.Grpc
